@@ -8,7 +8,7 @@
 //   a failed copy constructor leaves nothing allocated and nothing constructed.
 // Output line:  "ok ops=.. points=.. thrown=.. nontrivial=.. swallowed=.. reschg=.."   or   "VIOL <what> @op=<i> <opdesc> kind=<a|c|f> k=<k>"
 // Compile with -DPART=n (1 arrays, 2 HashSet, 3 HashMap LimP4, 4 TreeSet, 5 TreeMap node 4, 6 HashMap Open8, 7 TreeMap node 32,
-// 8 HashMultiMap) to keep TUs small.
+// 8 HashMultiMap, 9 HashSet over the real BucketOpenN1<1|3|7> / BucketOpen8) to keep TUs small.
 #include "private_access.h"
 #include "kit.h"
 #include <csignal>
@@ -73,7 +73,7 @@ static std::string opstr(const Op& o) { return "op(" + std::to_string(o.kind) + 
 // ---------------------------------------------------------------------------------------------- adapters
 // Every adapter: struct St { ... containers ... }; static St* make(); gen; apply; snap; probe; relaxed
 enum { K_ADD_C = 0, K_ADD_M, K_REMOVE, K_EXTRACT, K_RESERVE, K_SHRINK, K_SETCOUNT, K_SETCOUNT_V, K_COPY_CTOR, K_ASSIGN_AUX,
-	K_AUX_ADD, K_CLEAR, K_BRACKET, K_REMOVE_KEY, K_ADD_VAR, K_NKINDS };
+	K_AUX_ADD, K_CLEAR, K_BRACKET, K_REMOVE_KEY, K_ADD_VAR, K_REINSERT, K_NKINDS };
 
 template<typename E, size_t IntCap>
 struct ArrayAd
@@ -112,6 +112,9 @@ struct ArrayAd
 	static void snap1(const Cont& c, Snap& v) { v.push_back(int64_t(c.GetCount())); for (const E& e : c) v.push_back(e.Value()); }
 	static void snap(const St& s, Snap& v) { snap1(s.c, v); v.push_back(-7); snap1(s.aux, v); }
 	static bool relaxed(const Op&) { return false; }
+	static size_t fill() { return 0; }
+	static bool unordered(const Op&) { return false; }
+	static bool check_after(St&, const Op&, const Snap&, std::string&) { return true; }
 	static bool probe(St& s, std::string& why)
 	{
 		size_t n = s.c.GetCount();
@@ -160,6 +163,9 @@ struct SegAd
 	static void snap1(const Cont& c, Snap& v) { v.push_back(int64_t(c.GetCount())); for (size_t i = 0; i < c.GetCount(); ++i) v.push_back(c[i].Value()); }
 	static void snap(const St& s, Snap& v) { snap1(s.c, v); v.push_back(-7); snap1(s.aux, v); }
 	static bool relaxed(const Op&) { return false; }
+	static size_t fill() { return 0; }
+	static bool unordered(const Op&) { return false; }
+	static bool check_after(St&, const Op&, const Snap&, std::string&) { return true; }
 	static bool probe(St& s, std::string& why)
 	{
 		size_t n = s.c.GetCount();
@@ -182,7 +188,7 @@ struct SetAd
 	struct St { Cont c, aux; St() : c(Maker::make()), aux(Maker::make()) {} };
 	static Op gen(Rng& r, const St&)
 	{
-		static const int kinds[] = { K_ADD_C, K_ADD_C, K_ADD_C, K_ADD_C, K_ADD_M, K_ADD_M, K_ADD_M, K_REMOVE, K_REMOVE, K_EXTRACT, K_RESERVE,
+		static const int kinds[] = { K_ADD_C, K_ADD_C, K_ADD_C, K_ADD_C, K_ADD_M, K_ADD_M, K_ADD_M, K_REMOVE, K_REMOVE, K_EXTRACT, K_REINSERT, K_REINSERT, K_RESERVE,
 			K_COPY_CTOR, K_ASSIGN_AUX, K_AUX_ADD, K_AUX_ADD };
 		Op o; o.kind = kinds[r.below(sizeof(kinds) / sizeof(int))]; o.a = int64_t(r.below(Maker::keyRange)); o.b = 0;
 		return o;
@@ -195,6 +201,17 @@ struct SetAd
 		case K_ADD_M: { E x(o.a); s.c.Insert(std::move(x)); break; }
 		case K_REMOVE: { E x(o.a); s.c.Remove(static_cast<const E&>(x)); break; }
 		case K_EXTRACT: { E x(o.a); auto p = s.c.Find(static_cast<const E&>(x)); if (Maker::found(s.c, p)) { auto ext = s.c.Extract(p); (void)ext; } break; }
+		case K_REINSERT:   // extract into a handle and insert the handle back: if Insert(ExtractedItem&&) throws, the handle must still own the item
+		{
+			E x(o.a); auto p = s.c.Find(static_cast<const E&>(x));
+			if (Maker::found(s.c, p))
+			{
+				auto ext = s.c.Extract(p);
+				try { s.c.Insert(std::move(ext)); }
+				catch (...) { if (!ext.IsEmpty()) s.c.Insert(std::move(ext)); throw; }     // (the injection is one-shot: the retry cannot fail)
+			}
+			break;
+		}
 		case K_RESERVE: Maker::reserve(s.c, size_t(o.a) * 3); break;
 		case K_COPY_CTOR: { Cont t(s.c); (void)t; break; }
 		case K_ASSIGN_AUX: s.c = s.aux; break;
@@ -205,6 +222,23 @@ struct SetAd
 	static void snap1(const Cont& c, Snap& v) { v.push_back(int64_t(c.GetCount())); for (const E& e : c) v.push_back(e.Value()); }
 	static void snap(const St& s, Snap& v) { snap1(s.c, v); v.push_back(-7); snap1(s.aux, v); }
 	static bool relaxed(const Op&) { return false; }
+	static size_t fill() { return Maker::fill; }
+	static bool unordered(const Op& o) { return o.kind == K_REINSERT; }
+	// after a failed insertion of key x: traversal visits exactly GetCount() items, x is findable iff it was there before,
+	// and retrying the same insertion without a failure inserts it (or reports it present) consistently
+	static bool check_after(St& s, const Op& o, const Snap& pre, std::string& why)
+	{
+		size_t visited = 0; for (const E& e : s.c) { (void)e; ++visited; }
+		if (visited != s.c.GetCount()) { why = "traversal visits " + std::to_string(visited) + " items, GetCount() = " + std::to_string(s.c.GetCount()); return false; }
+		if (o.kind != K_ADD_C && o.kind != K_ADD_M) return true;
+		bool was = false; for (size_t i = 1; i < size_t(pre[0]) + 1 && i < pre.size(); ++i) if (pre[i] == o.a) was = true;
+		E x(o.a);
+		if (s.c.ContainsKey(static_cast<const E&>(x)) != was) { why = std::string("the key of the failed insertion is ") + (was ? "lost" : "found although it was never inserted"); return false; }
+		bool ins = s.c.Insert(static_cast<const E&>(x)).inserted;
+		if (ins == was) { why = std::string("retrying the failed insertion reports ") + (ins ? "inserted for a present key" : "already present"); return false; }
+		if (s.c.GetCount() != size_t(pre[0]) + (was ? 0 : 1) || !s.c.ContainsKey(static_cast<const E&>(x))) { why = "retry did not insert the key"; return false; }
+		return true;
+	}
 	static bool probe(St& s, std::string& why)
 	{
 		Snap before; snap1(s.c, before);
@@ -229,7 +263,7 @@ struct MapAd
 	struct St { Cont c, aux; St() : c(Maker::make()), aux(Maker::make()) {} };
 	static Op gen(Rng& r, const St&)
 	{
-		static const int kinds[] = { K_ADD_C, K_ADD_C, K_ADD_C, K_ADD_M, K_ADD_M, K_ADD_M, K_BRACKET, K_BRACKET, K_ADD_VAR, K_REMOVE, K_REMOVE, K_EXTRACT,
+		static const int kinds[] = { K_ADD_C, K_ADD_C, K_ADD_C, K_ADD_M, K_ADD_M, K_ADD_M, K_BRACKET, K_BRACKET, K_ADD_VAR, K_REMOVE, K_REMOVE, K_EXTRACT, K_REINSERT,
 			K_RESERVE, K_COPY_CTOR, K_ASSIGN_AUX, K_AUX_ADD, K_AUX_ADD };
 		Op o; o.kind = kinds[r.below(sizeof(kinds) / sizeof(int))]; o.a = int64_t(r.below(Maker::keyRange)); o.b = int64_t(r.below(1000));
 		return o;
@@ -244,6 +278,17 @@ struct MapAd
 		case K_BRACKET: { K k(o.a); if (o.b & 1) (void)s.c[static_cast<const K&>(k)]; else (void)s.c[std::move(k)]; break; }   // subscript insertion of a value-initialised value
 		case K_REMOVE: { K k(o.a); s.c.Remove(static_cast<const K&>(k)); break; }
 		case K_EXTRACT: { K k(o.a); auto p = s.c.Find(static_cast<const K&>(k)); if (Maker::found(s.c, p)) { auto ext = s.c.Extract(p); (void)ext; } break; }
+		case K_REINSERT:
+		{
+			K k(o.a); auto p = s.c.Find(static_cast<const K&>(k));
+			if (Maker::found(s.c, p))
+			{
+				auto ext = s.c.Extract(p);
+				try { s.c.Insert(std::move(ext)); }
+				catch (...) { if (!ext.IsEmpty()) s.c.Insert(std::move(ext)); throw; }
+			}
+			break;
+		}
 		case K_RESERVE: Maker::reserve(s.c, size_t(o.a) * 3); break;
 		case K_COPY_CTOR: { Cont t(s.c); (void)t; break; }
 		case K_ASSIGN_AUX: s.c = s.aux; break;
@@ -258,7 +303,19 @@ struct MapAd
 	static bool relaxed(const Op& o)
 	{
 		typedef momo::internal::ObjectManager<K, MM> KM; typedef momo::internal::ObjectManager<V, MM> VM;
-		return (o.kind == K_REMOVE || o.kind == K_EXTRACT) && !KM::isNothrowAnywayAssignable && !VM::isNothrowAnywayAssignable;
+		return (o.kind == K_REMOVE || o.kind == K_EXTRACT || o.kind == K_REINSERT) && !KM::isNothrowAnywayAssignable && !VM::isNothrowAnywayAssignable;
+	}
+	static size_t fill() { return Maker::fill; }
+	static bool unordered(const Op& o) { return o.kind == K_REINSERT; }
+	static bool check_after(St& s, const Op& o, const Snap& pre, std::string& why)
+	{
+		size_t visited = 0; for (auto ref : s.c) { (void)ref; ++visited; }
+		if (visited != s.c.GetCount()) { why = "traversal visits " + std::to_string(visited) + " pairs, GetCount() = " + std::to_string(s.c.GetCount()); return false; }
+		if (o.kind != K_ADD_C && o.kind != K_ADD_M && o.kind != K_ADD_VAR && o.kind != K_BRACKET) return true;
+		bool was = false; for (size_t i = 1; i + 1 < 2 * size_t(pre[0]) + 1 && i < pre.size(); i += 2) if (pre[i] == o.a) was = true;
+		K k(o.a);
+		if (s.c.ContainsKey(static_cast<const K&>(k)) != was) { why = std::string("the key of the failed insertion is ") + (was ? "lost" : "found although it was never inserted"); return false; }
+		return true;
 	}
 	static bool probe(St& s, std::string& why)
 	{
@@ -308,6 +365,9 @@ struct MultiMapAd
 	}
 	static void snap(const St& s, Snap& v) { snap1(s.c, v); v.push_back(-7); snap1(s.aux, v); }
 	static bool relaxed(const Op&) { return false; }
+	static size_t fill() { return 0; }
+	static bool unordered(const Op&) { return false; }
+	static bool check_after(St&, const Op&, const Snap&, std::string&) { return true; }
 	static bool probe(St& s, std::string& why)
 	{
 		size_t n = s.c.GetCount();
@@ -333,7 +393,14 @@ static std::string run_history(uint64_t seed, size_t nops, bool complete, Stats&
 	std::vector<Op> ops;
 	{
 		St s;
-		for (size_t i = 0; i < nops; ++i) { Op o = Ad::gen(rng, s); ops.push_back(o); Ad::apply(s, o); }
+		// "fill" histories (every other seed): start with enough distinct insertions to outgrow the initial table, so that the
+		// growth of a table that already has buckets (HashSet::pvAddGrow, shared BucketParams) is among the enumerated operations
+		size_t fill = (seed % 2 == 0) ? Ad::fill() : 0;
+		for (size_t i = 0; i < nops; ++i)
+		{
+			Op o; if (i < fill) { o.kind = (i % 2) ? K_ADD_M : K_ADD_C; o.a = int64_t(i); o.b = int64_t(i * 13); } else o = Ad::gen(rng, s);
+			ops.push_back(o); Ad::apply(s, o);
+		}
 		if (!W().errors.empty()) return "VIOL kit error in unfailed history: " + W().errors[0];
 	}
 	if (W().live_blocks() != 0 || W().live_objs() != 0) return "VIOL leak after unfailed history: " + kit::summary();
@@ -381,6 +448,7 @@ static std::string run_history(uint64_t seed, size_t nops, bool complete, Stats&
 						if (!W().errors.empty()) viol = "kit protocol error: " + W().errors[0];
 						Snap post; Ad::snap(s, post);
 						if (viol.empty() && !W().errors.empty()) viol = "kit protocol error while reading the container back: " + W().errors[0];
+						if (Ad::unordered(ops[i])) { std::sort(pre.begin(), pre.end()); std::sort(post.begin(), post.end()); }
 						if (viol.empty() && post != pre)
 						{
 							if (!(Ad::relaxed(ops[i]) && post.size() == pre.size() && post[0] == pre[0]))
@@ -391,6 +459,8 @@ static std::string run_history(uint64_t seed, size_t nops, bool complete, Stats&
 						if (viol.empty() && ops[i].kind == K_COPY_CTOR && (W().live_blocks() != blocks0 || W().bytes_live != bytes0))
 							viol = "failed copy constructor left memory allocated";
 						std::string why;
+						if (viol.empty() && !Ad::check_after(s, ops[i], pre, why)) viol = why;
+						if (viol.empty() && !W().errors.empty()) viol = "kit protocol error during the after-failure checks: " + W().errors[0];
 						if (viol.empty() && !Ad::probe(s, why)) viol = why;
 						if (viol.empty() && !W().errors.empty()) viol = "kit protocol error during the probe: " + W().errors[0];
 					}
@@ -416,6 +486,7 @@ template<typename E, typename Bucket> struct HSetMaker
 	typedef momo::HashTraitsStd<E, kit::Hash, kit::Eq, Bucket> Traits;
 	typedef momo::HashSet<E, Traits, MM> Cont;
 	static const int keyRange = 48;
+	static const size_t fill = 26;
 	static Cont make() { return Cont(Traits(8, kit::Hash(kit::LOWBITS)), MM(1)); }
 	static void reserve(Cont& c, size_t n) { c.Reserve(n); }
 	template<typename P> static bool found(const Cont&, const P& p) { return !!p; }
@@ -425,6 +496,7 @@ template<typename E, typename Node> struct TSetMaker
 	typedef momo::TreeTraitsStd<E, kit::Less, false, Node> Traits;
 	typedef momo::TreeSet<E, Traits, MM> Cont;
 	static const int keyRange = 64;
+	static const size_t fill = 0;
 	static Cont make() { return Cont(Traits(), MM(1)); }
 	static void reserve(Cont&, size_t) {}
 	template<typename P> static bool found(const Cont& c, const P& p) { return p != c.GetEnd(); }
@@ -434,6 +506,7 @@ template<typename K, typename V, typename Bucket, bool XC = false> struct HMapMa
 	typedef momo::HashTraitsStd<K, kit::Hash, kit::Eq, Bucket> Traits;
 	typedef momo::HashMap<K, V, Traits, MM, momo::HashMapKeyValueTraits<K, V, MM>, HMapSettings<XC>> Cont;
 	static const int keyRange = 48;
+	static const size_t fill = 26;
 	static Cont make() { return Cont(Traits(8, kit::Hash(kit::LOWBITS)), MM(1)); }
 	static void reserve(Cont& c, size_t n) { c.Reserve(n); }
 	template<typename P> static bool found(const Cont&, const P& p) { return !!p; }
@@ -443,6 +516,7 @@ template<typename K, typename V, typename Node, bool XC = false> struct TMapMake
 	typedef momo::TreeTraitsStd<K, kit::Less, false, Node> Traits;
 	typedef momo::TreeMap<K, V, Traits, MM, momo::TreeMapKeyValueTraits<K, V, MM>, TMapSettings<XC>> Cont;
 	static const int keyRange = 64;
+	static const size_t fill = 0;
 	static Cont make() { return Cont(Traits(), MM(1)); }
 	static void reserve(Cont&, size_t) {}
 	template<typename P> static bool found(const Cont& c, const P& p) { return p != c.GetEnd(); }
@@ -454,6 +528,29 @@ template<typename K, typename V> struct HMMapMaker
 	static const int keyRange = 24;
 	static Cont make() { return Cont(Traits(8, kit::Hash(kit::LOWBITS)), MM(1)); }
 };
+
+
+#if PART == 0 || PART == 9
+// Really BucketOpenN1<k> / BucketOpen8: HashBucketOpen8 falls back to BucketOpen2N2 unless the key is "fast nothrow hashable", and
+// HashTraitsStd with a custom functor never is; so: plain momo::HashTraits over HashCoder, both public customisation points.
+namespace momo {
+template<int C> struct IsFastNothrowHashable<kit::ElemT<C>> : public std::true_type {};
+template<> struct IsFastNothrowHashable<kit::ElemCpo> : public std::true_type {};
+template<int C> struct HashCoder<kit::ElemT<C>, size_t> { size_t operator()(const kit::ElemT<C>& k) const noexcept { return kit::spread(kit::LOWBITS, uint64_t(**reinterpret_cast<int64_t* const*>(&k))); } };
+template<> struct HashCoder<kit::ElemCpo, size_t> { size_t operator()(const kit::ElemCpo& k) const noexcept { return kit::spread(kit::LOWBITS, uint64_t(**reinterpret_cast<int64_t* const*>(&k))); } };
+}
+template<typename E, typename Bucket, size_t expectMax> struct OSetMaker
+{
+	typedef momo::HashTraits<E, Bucket> Traits;
+	typedef momo::HashSet<E, Traits, MM> Cont;
+	static_assert(Cont::Bucket::maxCount == expectMax, "unexpected bucket type selected");
+	static const int keyRange = 48;
+	static const size_t fill = 26;
+	static Cont make() { return Cont(Traits(), MM(1)); }
+	static void reserve(Cont& c, size_t n) { c.Reserve(n); }
+	template<typename P> static bool found(const Cont&, const P& p) { return !!p; }
+};
+#endif
 
 template<typename Ad> static void go(uint64_t seed, size_t nops, bool complete)
 {
@@ -489,6 +586,12 @@ template<typename E> static bool dispatch(const std::string& cfg, uint64_t seed,
 #endif
 #if PART == 0 || PART == 8
 	if (cfg == "hmmap") { typedef HMMapMaker<E, E> Mk; go<MultiMapAd<E, E, typename Mk::Cont, Mk>>(seed, nops, complete); return true; }
+#endif
+#if PART == 0 || PART == 9
+	if (cfg == "hset_openn1_1") { typedef OSetMaker<E, momo::HashBucketOpenN1<1>, 1> Mk; go<SetAd<E, typename Mk::Cont, Mk>>(seed, nops, complete); return true; }
+	if (cfg == "hset_openn1_3") { typedef OSetMaker<E, momo::HashBucketOpenN1<3>, 3> Mk; go<SetAd<E, typename Mk::Cont, Mk>>(seed, nops, complete); return true; }
+	if (cfg == "hset_openn1_7") { typedef OSetMaker<E, momo::HashBucketOpenN1<7>, 7> Mk; go<SetAd<E, typename Mk::Cont, Mk>>(seed, nops, complete); return true; }
+	if (cfg == "hset_open8r") { typedef OSetMaker<E, momo::HashBucketOpen8, 7> Mk; go<SetAd<E, typename Mk::Cont, Mk>>(seed, nops, complete); return true; }
 #endif
 #if PART == 0 || PART == 4
 	if (cfg == "tset_n4") { typedef TSetMaker<E, Node4> Mk; go<SetAd<E, typename Mk::Cont, Mk>>(seed, nops, complete); return true; }
